@@ -671,6 +671,16 @@ def _fn_renames(all_fns, known_sigs):
         back = [g2 for g2 in gone if parent(g2) == parent(cands[0]) and known_sigs[g2] == present[cands[0]]]
         if len(back) == 1:
             out[cands[0]] = g
+    # moved to another module of the same crate under the same name and signature
+    last = lambda k: k.rsplit("::", 1)[-1]
+    crate = lambda k: k.split("::", 1)[0]
+    for g in gone:
+        if g in out.values():
+            continue
+        cands = [n for n in new if n not in out and last(n) == last(g) and crate(n) == crate(g) and present[n] == known_sigs[g]]
+        back = [g2 for g2 in gone if g2 not in out.values() and cands and last(g2) == last(g) and crate(g2) == crate(g) and known_sigs[g2] == known_sigs[g]]
+        if len(cands) == 1 and len(back) == 1:
+            out[cands[0]] = g
     return out
 
 
